@@ -355,6 +355,9 @@ class _Beam(_IModel):
         u = simu._Get_u_n(simu.problemType, asCsrMatrix=True)
         integral = (u.T @ f)[0, 0]
         kappa = bending_inertia**2 / (section.area * integral)
+        # the section must not keep this temporary simulation (and its local forms) alive as an observer:
+        # it would make the beam, and any simulation using it, impossible to pickle (Save)
+        section._Remove_observer(simu)
         return kappa
 
 
